@@ -88,20 +88,25 @@ type imp struct {
 // the property statements against the code; every line names the clause it serves).
 var propImports = map[string][]imp{
 	"C01": {
+		{"C01.14/delivered-private", "C17", "a message handed to one receiver is not the buffer handed to another: what one does with its copy cannot change what the other reads", []string{"C17.3/shared-queue", "C17.6/unique-sites"}},
+		{"C01.15/ownership", "C17", "a message on its way is not released while something still holds and re-sends it (a recycled buffer arrives with another message's bytes)", []string{"C17.1/E5"}},
 		{"C01.13/request-id-marker", "C03", "every request id carries the bit that ends the backtrace: without it the REP side takes payload words for routing data and the application sees a truncated body", []string{"C03.12/id-end-marker"}},
 		{"C01.12/limit-read-per-connection", "C16", "the receive limit a message is checked against is the one configured when its connection is accepted: a stale limit drops messages the property says are delivered", []string{"C16.11/limit-read-per-connection"}},
 	},
 	"C02": {
+		{"C02.13/api-copies", "C01", "Recv hands the application a private copy of the body: the delivered bytes do not change when the message is recycled", []string{"C01.8/api-copies"}},
 		{"C02.8/E3", "C11", "PAIR admission and PUSH scheduling state (and the core attach/detach flags they are driven by) is read and written under its lock: a detach decided on a stale flag never tells the protocol its peer has gone", []string{"C11.1/E3|internal/core", "C11.1/E3|protocol/xpair", "C11.1/E3|protocol/xpush", "C11.1/E3|protocol/xpull"}},
 		{"C02.9/ownership", "C17", "a message accepted for delivery is neither released twice nor shared with a later one (no duplication, loss or reordering through a recycled buffer)", []string{"C17.5/send-contract", "C17.1/E5|protocol/xpair", "C17.1/E5|protocol/xpush", "C17.1/E5|protocol/xpull", "C17.1/E5|transport"}},
 		{"C02.11/wakers", "C14", "the PUSH scheduler is woken by every pipe that becomes ready (a conditional wake-up strands queued messages)", []string{"C14.8/wakers-complete|protocol/xpush"}},
 		{"C02.10/lifecycle", "C13", "the protocol is told of every arrival and departure exactly once: a second peer is admitted once the first has gone", []string{"C13.1/addPipe", "C13.2/detached", "C13.3/once-each"}},
 	},
 	"C03": {
+		{"C03.13/api-copies", "C01", "the reply handed to the application is a private copy: it is not overwritten by a later message", []string{"C01.8/api-copies"}},
 		{"C03.10/request-state", "C04", "the id of an abandoned request leaves the id table wherever the request is given up (a stale reply must find nothing)", []string{"C04.6/pipe-loss", "C04.7/request-state-transitions"}},
 		{"C03.11/E3", "C11", "request state is accessed under the socket lock", []string{"C11.1/E3|protocol/req", "C11.1/E3|protocol/xreq"}},
 	},
 	"C04": {
+		{"C04.19/lifecycle", "C13", "REQ is told of every departure of a pipe it was told of: only then is the request that rode it re-sent", []string{"C13.1/addPipe", "C13.2/detached", "C13.3/once-each"}},
 		{"C04.16/send-contract", "C17", "the request kept for retransmission is not released by a failed transmission (the re-send must be byte-identical)", []string{"C17.5/send-contract|transport"}},
 		{"C04.14/id-table", "C03", "only the request path registers and clears ids", []string{"C03.2/id-table-writers"}},
 		{"C04.15/E3", "C11", "request state is accessed under the socket lock", []string{"C11.1/E3|protocol/req"}},
@@ -112,6 +117,7 @@ var propImports = map[string][]imp{
 		{"C05.14/ownership", "C17", "the saved route and the reply are not aliased with recycled buffers", []string{"C17.1/E5|protocol/rep", "C17.1/E5|protocol/respondent", "C17.1/E5|protocol/xrep", "C17.1/E5|protocol/xrespondent"}},
 	},
 	"C06": {
+		{"C06.13/one-connection-per-dialer", "C14", "a dialer re-establishes one connection per loss: a second connection to the same publisher delivers every message twice", []string{"C14.5/redial-after-loss", "C14.2/backoff"}},
 		{"C06.12/send-contract", "C17", "a message shared by all subscriber pipes is released once per pipe, also when a write fails", []string{"C17.5/send-contract|transport"}},
 		{"C06.10/queue-sizing", "C19", "a context's queue and the length recorded for it agree, and a new context starts from the socket's: unsubscribe rebuilds the queue from the recorded length and re-queues under the lock", []string{"C19.4/inheritance|protocol/sub", "C19.6/queue-length-agrees|protocol/sub", "C19.6/queue-length-agrees|protocol/xsub", "C19.6/queue-length-agrees|protocol/xpub"}},
 		{"C06.11/E3", "C11", "subscription state is accessed under the socket lock", []string{"C11.1/E3|protocol/sub", "C11.1/E3|protocol/xsub", "C11.1/E3|protocol/xpub"}},
@@ -122,11 +128,13 @@ var propImports = map[string][]imp{
 		{"C07.16/E3", "C11", "survey state is accessed under the socket lock", []string{"C11.1/E3|protocol/surveyor", "C11.1/E3|protocol/xsurveyor", "C11.1/E3|protocol/respondent", "C11.1/E3|protocol/xrespondent"}},
 	},
 	"C08": {
+		{"C08.13/one-connection-per-dialer", "C14", "a dialer that failed and was reported as failed does not keep connecting in the background: a second pipe to the same member delivers every message twice", []string{"C14.2/backoff", "C14.5/redial-after-loss"}},
 		{"C08.12/queue-sizing", "C19", "the per-peer send queue has the configured length (messages fitting it are not dropped)", []string{"C19.6/queue-length-agrees|protocol/xbus", "C19.6/queue-length-agrees|protocol/xstar"}},
 		{"C08.10/id-nonzero", "C13", "BUS uses id 0 for 'no source pipe': a pipe must never get it", []string{"C13.8/allocator"}},
 		{"C08.11/E3", "C11", "peer tables are accessed under the socket lock", []string{"C11.1/E3|protocol/xbus", "C11.1/E3|protocol/xstar"}},
 	},
 	"C09": {
+		{"C09.12/transport-leaves-message-intact", "C17", "sending a message does not rewrite it: a message shared by reference count (forwarded, broadcast or kept for re-sending) goes out identical on every connection", []string{"C17.4/no-write-through"}},
 		{"C09.11/forwarded-message-intact", "C17", "a message handed back to the forwarder after a failed send is unchanged (a retry routes by the same header)", []string{"C17.5/send-contract|protocol/x", "C17.1/E5|protocol/xrep", "C17.1/E5|protocol/xreq", "C17.1/E5|protocol/xrespondent", "C17.1/E5|protocol/xsurveyor"}},
 		{"C09.10/ttl-read-at-use", "C19", "the hop limit applied to a message is the one in force when the message arrived", []string{"C19.9/options-read-at-use|.ttl"}},
 		{"C09.9/star-forward", "C08", "a STAR node forwards a private copy with the hop header intact whatever the local application does with its own copy", []string{"C08.4/star-forward"}},
@@ -135,9 +143,12 @@ var propImports = map[string][]imp{
 		{"C10.12/E10c", "C19", "a queue that a goroutine re-fills under the socket lock has room for it: otherwise that goroutine blocks holding the lock and Close never returns", []string{"C19.2/E10c"}},
 	},
 	"C11": {
+		{"C11.10/no-callback-under-lock", "C13", "application hooks are called with no internal lock held (a hook that closes the pipe or uses the socket would deadlock)", []string{"C13.6/hook-no-lock"}},
 		{"C11.9/ownership", "C17", "concurrent users of one socket never end up holding the same message or buffer", []string{"C17.1/E5", "C17.5/send-contract", "C17.7/fresh-backing-per-message"}},
 	},
 	"C12": {
+		{"C12.13/refused-device", "C19", "a Device call that is refused has started nothing", []string{"C19.7/refused-device-has-no-effect"}},
+		{"C12.14/close-affects-only-itself", "C10", "closing an endpoint that failed to start does not disturb the one that owns the address", []string{"C10.11/close-affects-only-itself"}},
 		{"C12.12/lock-order", "C11", "no two paths take the same two locks in opposite orders (a deadlock wedges every later call)", []string{"C11.2/E2"}},
 		{"C12.10/queue-sizing", "C19", "queue and recorded length agree wherever a queue is built: a rebuild that re-queues under the lock into a smaller queue wedges the socket", []string{"C19.6/queue-length-agrees"}},
 		{"C12.11/redial", "C14", "losing or failing a connection at any stage never stops a dialer from redialling", []string{"C14.2/backoff", "C14.5/redial-after-loss"}},
@@ -147,25 +158,31 @@ var propImports = map[string][]imp{
 		{"C13.11/handshake", "C16", "a connection that fails its handshake yields no pipe and does not end the accept loop", []string{"C16.6/handshake-validation"}},
 	},
 	"C14": {
+		{"C14.10/wake-ups", "C10", "a dialer parked in the transport until its listener appears is woken when it does (every waiter is woken: the condition variable is shared by all addresses)", []string{"C10.1/cond|transport/inproc"}},
+		{"C14.9/attach", "C13", "a pipe closed while attaching never reaches the protocol, and a refused one is closed through the core: otherwise the protocol keeps a dead pipe, every later connection is refused and traffic never resumes", []string{"C13.1/addPipe"}},
 		{"C14.7/registration", "C10", "a dialer is registered with its socket, or refused, atomically with the socket's closed state: a dialer added to a closed socket keeps dialling for ever", []string{"C10.3/socket-close|NewDialer", "C10.10/E3b|internal/core.(*socket).NewDialer", "C10.10/E3b|internal/core.(*dialer)"}},
 	},
 	"C16": {
+		{"C16.18/queue-room", "C19", "a receiver that re-queues under the socket lock always has room: otherwise one message from a peer blocks it with the lock held and the whole socket stalls", []string{"C19.2/E10c", "C19.2/ranges"}},
 		{"C16.16/no-cross-peer-pollution", "C17", "nothing one peer sends can end up in state kept for another peer (saved routes are private copies)", []string{"C17.1/E5|protocol/"}},
 		{"C16.13/channel-typestate", "C11", "no send can reach a channel that a concurrent close may already have closed (a send on a closed channel panics the process): responses for a survey being retired, messages for a pipe being removed", []string{"C11.4/E10b", "C11.4/E10a"}},
 		{"C16.15/ws-limit-applied", "C19", "the configured receive limit reaches SetReadLimit on both the dialing and the accepting side", []string{"C19.12/option-type-agreement|MAX-RCV-SIZE"}},
 		{"C16.14/websocket-handshake", "C15", "a websocket peer whose sub-protocol is not exactly the expected name is refused", []string{"C15.5/websocket"}},
 	},
 	"C15": {
+		{"C15.10/pool", "C01", "a message obtained for an announced length has room for it: the receive path slices the pooled buffer to that length", []string{"C01.1/pool"}},
 		{"C15.9/send-contract", "C17", "the frame is written from the message's own buffers: they are not released before or regardless of the write", []string{"C17.5/send-contract|transport", "C17.1/E5|transport"}},
 	},
 	"C17": {
 		{"C17.8/api-copies", "C01", "Recv hands out a copy of the body whatever its size; the message goes back to the pool", []string{"C01.8/api-copies"}},
 	},
 	"C18": {
+		{"C18.12/timer-fields", "C11", "deadline timers and deadline values are read and written under the socket lock: a timer stopped or replaced outside it is the wrong call's timer", []string{"C11.1/E3|Timer", "C11.1/E3|Expire", "C11.1/E3|Deadline"}},
 		{"C18.11/no-wait-under-lock", "C12", "no blocking wait while holding a socket lock: every other call on the socket would ignore its own deadline for as long", []string{"C12.2/E4"}},
 		{"C18.10/inheritance", "C19", "a new context starts with the deadlines configured on the socket (send from send, receive from receive)", []string{"C19.4/inheritance"}},
 	},
 	"C19": {
+		{"C19.15/best-effort-takes-effect", "C18", "an accepted BestEffort / deadline value takes effect as documented on every send and receive path", []string{"C18.1/deadline-select"}},
 		{"C19.11/backoff", "C14", "MaxReconnectTime takes effect as documented: 0 disables the back-off, otherwise it caps it", []string{"C14.2/backoff"}},
 	},
 }
